@@ -23,9 +23,26 @@ func (r *ReadFS) OpenFile(path string, flag experimentalsys.Oflag, perm fs.FileM
 	default: // sys.O_RDONLY (integer zero) so we are ok!
 	}
 
+	// O_TRUNC and O_CREAT change the file system even when the access mode
+	// is read-only, so they must never reach the underlying FS.
+	if flag&experimentalsys.O_TRUNC != 0 {
+		return nil, experimentalsys.EROFS
+	}
+	create := flag&experimentalsys.O_CREAT != 0
+	excl := create && flag&experimentalsys.O_EXCL != 0
+	if create { // open what exists; creating is refused below
+		flag &^= experimentalsys.O_CREAT | experimentalsys.O_EXCL
+	}
+
 	f, errno := r.FS.OpenFile(path, flag, perm)
-	if errno != 0 {
+	switch {
+	case errno == experimentalsys.ENOENT && create:
+		return nil, experimentalsys.EROFS // cannot create on a read-only FS
+	case errno != 0:
 		return nil, errno
+	case excl: // O_CREAT|O_EXCL on something that exists
+		_ = f.Close()
+		return nil, experimentalsys.EEXIST
 	}
 	return &readFile{f}, 0
 }
